@@ -51,7 +51,9 @@ def lit(val):
 def rand_value(rng, t):
     """A value (type, v) assignable to a slot of type t; sometimes of another numeric type."""
     if t == "$" or isinstance(t, tuple):
-        return ("$", "".join(rng.choice("abcXYZ 12") for _ in range(rng.choice([0, 1, 2, 3, 5, 8]))))
+        # a few values carry characters above 127 (one character, two bytes in the interpreter's strings)
+        alphabet = "abcXYZ 12" if rng.random() < 0.8 else "ab \u00e9\u00c8\u00ff1"
+        return ("$", "".join(rng.choice(alphabet) for _ in range(rng.choice([0, 1, 2, 3, 5, 8]))))
     src = rng.choice([t, t, "%", "!", "&"])
     if src == "%":
         return ("%", rng.randrange(-999, 1000))
@@ -481,6 +483,8 @@ def judge(src, segs, m, rep):
         e = rep.get("parse") if oc[0] == "parse_error" else rep.get("lint")
         return ("rejected:%s" % oc[1], "program rejected: %s at %s:%s" % (e["err"], e["row"], e["col"]))
     out = rep["run"]["stdout"]
+    # the worker reports the bytes of stdout one character per byte
+    segs = [(("s", x[1].encode("utf-8").decode("latin-1")) if x[0] == "s" else x) for x in segs]
     exp_text = "".join(s[1] if s[0] == "s" else s[3] for s in segs)
     if m.error:
         if not (oc[0] == "error" and oc[1] == m.error[0]):
